@@ -577,6 +577,34 @@ def run(chk):
         oracle_cases.append(case)
         chk.dist("guard:%s" % ("reject" if big else "accept"))
 
+    # ---- processing options: the spectrum of the *processed* series (its own sampling interval) ---------------------------------------------
+    for _ in range(12 if q else 150):
+        n = rng.choice([400, 600, 1024])
+        dt0 = rng.choice([0.1, 0.2, 0.5])
+        t = np.arange(n) * dt0
+        x = np.sin(2 * np.pi * 0.2 / dt0 / 5 * t) + 0.3 * np.cos(2 * np.pi * 0.9 / dt0 / 5 * t) + 0.01 * np.array([rng.uniform(-1, 1) for _ in range(n)])
+        ts = TimeSeries("a", t, x)
+        opt = rng.choice(["resample", "twin", "both"])
+        kw = {}
+        if opt in ("resample", "both"):
+            kw["resample"] = dt0 * rng.choice([2.0, 3.0, 0.5, 2.5])
+        if opt in ("twin", "both"):
+            kw["twin"] = (float(t[n // 8]), float(t[-n // 8]))
+        nps = rng.choice([None, 64, 100])
+        chk.count("oracles:ts-options")
+        inp = dict(kind="ts-options", n=n, dt=dt0, options={k: (list(v) if isinstance(v, tuple) else v) for k, v in kw.items()}, nperseg=nps)
+        try:
+            f, pp = ts.psd(nperseg=nps, **kw)
+            tp, xp = ts.get(**kw)
+            fr, pr = ref_ts(np.asarray(tp), np.asarray(xp), nps, None, None, False)
+        except Exception as e:
+            chk.fail("the spectrum with processing options is that of the processed series", inp, "spectrum", type(e).__name__ + ": " + str(e)[:60])
+            continue
+        if not (same(f, fr, 1e-9 * (1 + abs(fr[-1]))) and same(pp, pr, 1e-9 * float(np.max(pr)))):
+            chk.fail("with processing options (window / resampling) the spectrum is the Welch density of the processed series, "
+                     "frequencies from 0 to 1/(2 dt') of ITS sampling interval", inp,
+                     dict(f_last=float(fr[-1]), peak_f=float(fr[np.argmax(pr)])), dict(f_last=float(f[-1]), peak_f=float(f[np.argmax(pp)])))
+
     # ---- evaluate the clauses -----------------------------------------------------------------------------------------------------------------
     for case in oracle_cases:
         chk.count("oracles:" + case["api"])
@@ -587,6 +615,20 @@ def run(chk):
 
 def replay(rp):
     case = rp["input"]
+    if case.get("kind") == "ts-options":
+        from qats import TimeSeries
+        n, dt0 = case["n"], case["dt"]
+        t = np.arange(n) * dt0
+        x = np.sin(2 * np.pi * 0.2 / dt0 / 5 * t) + 0.3 * np.cos(2 * np.pi * 0.9 / dt0 / 5 * t)
+        kw = {k: (tuple(v) if isinstance(v, list) else v) for k, v in case["options"].items()}
+        ts = TimeSeries("a", t, x)
+        f, pp = ts.psd(nperseg=case["nperseg"], **kw)
+        tp, xp = ts.get(**kw)
+        fr, pr = ref_ts(np.asarray(tp), np.asarray(xp), case["nperseg"], None, None, False)
+        ok = same(f, fr, 1e-9 * (1 + abs(fr[-1]))) and same(pp, pr, 1e-9 * float(np.max(pr)))
+        print("last frequency: implementation %g, processed series %g" % (f[-1], fr[-1]))
+        print("replay: %d failing clause(s)" % (0 if ok else 1))
+        return 0 if ok else 1
     bad = evaluate(case)
     for clause, exp, obs in bad:
         print("FAILS:", clause)
